@@ -8,6 +8,10 @@ VALUE_OPS = ["splitUniform", "splitNonUniform", "splitEqual", "splitUnEqual", "f
 OBSERVERS = ["getPayload", "iterate", "coiterate", "compare", "queries", "print", "dump", "uncompress", "footprint", "renderTree", "renderUncompressed", "renderTensor", "renderTreeHL", "renderUncompressedHL", "renderTensorHL"]
 
 
+# read-only operations that accept an operand with tuple coordinates as it is (the others take integer coordinates / ranges from the caller)
+FLAT_OBSERVERS = ["compare", "print", "dump", "renderTree", "renderUncompressed", "renderTensor"]
+
+
 def run(ctx):
     rng = ctx.rng
     cfg = tlc.write_cfg("MC_Alias_run.cfg", "CONSTANTS\n Cells = {1,2,3%s}\n Vals = {0,1}\nINIT Init\nNEXT Next\nINVARIANT NonInterference\nINVARIANT SharedIsVisible\nCHECK_DEADLOCK FALSE\n"
@@ -41,6 +45,8 @@ def run(ctx):
         obs = OBSERVERS if not ctx.quick else rng.sample(OBSERVERS[:9], 5) + rng.sample(OBSERVERS[9:], 2)
         for op in obs:
             cases.append({"kind": "observer", "op": op, "tree": t, "tree2": t2, "depth": depth})
+            if depth >= 2 and t["e"] and op in FLAT_OBSERVERS and classify_tree(t) != "ghost" and rng.random() < 0.5:
+                cases.append({"kind": "observer", "op": op, "tree": t, "tree2": t2, "depth": depth, "flat": rng.choice(["tuple", "pair"])})
     part = family.run_family(ctx, "C10", cases, "harness.exec_alias", "AliasTrace.tla", "AliasTrace.cfg",
                              op_of=lambda c, lg, st: c["op"], where_of=lambda c, lg, st: c["kind"] + ":" + classify_tree(c["tree"]) + f":depth{c['depth']}",
                              nontrivial=lambda c, lg: bool(c["tree"]["e"]))
